@@ -195,8 +195,10 @@ reg('c12_castling_parse', 'C12', QT, 600, 6, 'every UTF-8 string of at most 6 by
 reg('c12_castling_roundtrip', 'C12', QT, 900, 8, 'all 16 right sets through core::fmt', 'c12::castling_roundtrip', unwind=8, props=['C12', 'C20'])
 reg('c12_san_parse_total_5', 'C12', QT, 900, 8, 'every UTF-8 string of at most 5 bytes', 'c12::san_parse_total::<_, 5>', 's4', 9, props=['C12', 'C09'])
 reg('c12_san_parse_total_7', 'C12', T, 3600, 12, 'every UTF-8 string of at most 7 bytes', 'c12::san_parse_total::<_, 7>', 's4', 9, props=['C12', 'C09'])
-reg('c12_fen_board_field_18', 'C12', T, 3600, 18, 'FEN family (a): every space-free UTF-8 string of at most 18 bytes as the whole record',
-    'c12::fen_board_field::<_, 18>', unwind=20)
+reg('c12_fen_board_field_10', 'C12', T, 3600, 14, 'FEN family (a): every space-free UTF-8 string of at most 10 bytes as the whole record',
+    'c12::fen_board_field::<_, 10>', unwind=12)
+reg('c12_fen_board_end_5', 'C12', QT, 2400, 12, 'FEN family (c): 8/8/8/8/8/8/8/ followed by every space-free UTF-8 string of at most 5 bytes',
+    'c12::fen_board_end::<_, 5>', unwind=16)
 reg('c12_fen_tail_12', 'C12', T, 3600, 12, 'FEN family (b): board field 4k3/8/8/8/8/8/8/4K3 followed by every UTF-8 string of at most 12 bytes',
     'c12::fen_tail::<_, 12>', 's1', 66)
 
@@ -279,7 +281,7 @@ QUICK = {
            + ['c10_uci_accept_semi_w', 'c10_uci_accept_legal_b', 'c10_uci_accept_make_w', 'c10_uci_parse_exact'],
     'C11': ['c11_validate_exact_w', 'c11_validate_exact_b'],
     'C12': ['c12_coord_parse', 'c12_coord_roundtrip', 'c12_color_parse', 'c12_cell_parse', 'c12_castling_parse', 'c12_castling_roundtrip',
-            'c12_san_parse_total_5', 'c10_uci_parse_exact'],
+            'c12_san_parse_total_5', 'c10_uci_parse_exact', 'c12_fen_board_end_5'],
     'C13': ['c13_chain_step_s0_p0_castling', 'c13_chain_step_s0_p0_ep', 'c13_chain_step_s0_p0_pspecial', 'c13_chain_step_s1_p1_king', 'c13_chain_step_s0_p2_other',
             'c13_chain_step_s5_p4_other', 'c13_chain_step_s3_p0_queen', 'c13_chain_eq_s0_pawn', 'c13_chain_eq_s0_king'],
     'C14': ['c14_outcome_filter_table', 'c14_chain_outcome_precedence', 'c07_outcome_classification_w', 'c07_outcome_lone_king_b', 'c13_chain_step_s5_p4_other', 'c13_chain_step_s5_p4_knight_outcome',
